@@ -30,11 +30,13 @@ def seq_of(res, rank, lines):
 
 
 class Gen:
-    def __init__(self, rng, nprocs, safe, aggr, i):
+    def __init__(self, rng, nprocs, safe, aggr, i, hcoll=False):
         self.rng, self.np = rng, nprocs
         hints = []
         if aggr:
             hints.append("nc_num_aggrs_per_node:%d" % aggr)
+        if hcoll:
+            hints.append("romio_no_indep_rw:true")         # the header (and record count) is then written collectively
         self.p = p = NBProg(rng, nprocs, "@OUT@/c08.nc", version=rng.choice([1, 2, 5]), info=";".join(hints) or None)
         self.groups = []      # dicts: lines {rank: line}, api, kind, roles, var
         self.safe = safe
@@ -171,13 +173,50 @@ class Gen:
         return self.putget_group(kind, vid, roles, form)
 
 
+def wait_group(g, rng):
+    """collective wait_all with different numbers (incl. zero) of pending requests per rank, some of which grow the record
+    count and some not; every rank names all, only its puts, or none of its requests"""
+    p = g.p
+    for r in range(g.np):
+        for _ in range(rng.choice([0, 0, 1, 1, 2, 3])):
+            vid = rng.choice([g.F, g.R, g.R, g.R1])
+            st, ct, sd = g.own_box(vid, r)
+            p.post(rng.choice(["iput", "iput", "iget"]) if st[0] < max(p.fm.numrecs, 1) or not p.fm.vars[vid].isrec else "iput", r, vid, st, ct, sd, form=rng.choice(["vara", "vars"]))
+    choice = {r: rng.choice(["all", "all", "all", "allput", "none"]) for r in range(g.np)}
+    n0 = len(p.s.lines)
+    p.complete("wait", True, choice)
+    lines = {}
+    for k in range(n0, len(p.s.lines)):
+        parts = p.s.lines[k].split(" ")
+        if len(parts) > 1 and parts[1] == "wait" and parts[0].isdigit():
+            lines[int(parts[0])] = k + 1
+    if len(lines) == g.np:
+        g.groups.append({"lines": lines, "kind": "wait_all", "roles": [choice[r] + ":%d" % len(p.pending[r]) for r in range(g.np)], "var": "-", "form": "-", "codes": None})
+    if any(p.pending[r] for r in range(g.np)):
+        # what was left pending is completed by a second wait_all (again with different counts per rank)
+        n0 = len(p.s.lines)
+        p.complete("wait", True, {r: "all" for r in range(g.np)})
+        lines = {}
+        for k in range(n0, len(p.s.lines)):
+            parts = p.s.lines[k].split(" ")
+            if len(parts) > 1 and parts[1] == "wait" and parts[0].isdigit():
+                lines[int(parts[0])] = k + 1
+        if len(lines) == g.np:
+            g.groups.append({"lines": lines, "kind": "wait_all", "roles": ["rest"] * g.np, "var": "-", "form": "-", "codes": None})
+
+
 def gen_case(rng, i, nprocs, safe, aggr, EC, roles_plan=None, known_hang=False):
     g = Gen.__new__(Gen)
     g.EC = EC
-    Gen.__init__(g, rng, nprocs, safe, aggr, i)
+    hcoll = (not roles_plan) and (not known_hang) and rng.random() < 0.3
+    Gen.__init__(g, rng, nprocs, safe, aggr, i, hcoll=hcoll)
     p = g.p
     nops = 1 if known_hang else 8
     for k in range(nops):
+        if not known_hang and not roles_plan and rng.random() < 0.3:
+            wait_group(g, rng)
+            p.sync3()
+            continue
         vid = rng.choice([g.F, g.R, g.R, g.C, g.R1])
         v = p.fm.vars[vid]
         kind = rng.choice(["put", "put", "get"])
@@ -201,17 +240,20 @@ def gen_case(rng, i, nprocs, safe, aggr, EC, roles_plan=None, known_hang=False):
                 shape = p.shape_now(v)
                 if min(shape) > 0:
                     p.one_access("get", r, vid, [0] * len(shape), list(shape), [1] * len(shape), True, form="vara", mt=XT2MEM[v.xtype])
+    if any(p.pending[r] for r in range(nprocs)):
+        p.complete("wait", True, {r: "all" for r in range(nprocs)})
     p.close()
     p.emit("*", "balance", final=1)
     env = {"PNETCDF_SAFE_MODE": "1"} if safe else {}
-    return Case("c08_%05d" % i, nprocs, p.s.lines, env=env, timeout=(20 if known_hang else 120), meta={"expect": p.expect, "groups": g.groups, "feat": p.feat, "safe": safe, "aggr": aggr})
+    return Case("c08_%05d" % i, nprocs, p.s.lines, env=env, timeout=(20 if known_hang else 120), meta={"expect": p.expect, "groups": g.groups, "feat": p.feat, "safe": safe, "aggr": aggr, "hcoll": hcoll})
 
 
 class C08(Check):
     id = "C08"
     rule = ("collective put/get *_all (vara/vars/varm, typed) on a fixed, a 2-D record, a 1-D record and a text variable with every rank "
-            "playing a role from {valid, zero-length, invalid coords, edge, stride, negative count, char mismatch, bad varid}; 2-4 ranks "
-            "(all role assignments enumerated for 2 ranks), safe mode on/off, intra-node aggregation on/off, injected delays; oracle: the "
+            "playing a role from {valid, zero-length, invalid coords, edge, stride, negative count, char mismatch, bad varid}, and collective "
+            "wait_all with 0-3 pending iput/iget per rank (record-growing or not) naming all / only puts / none of them; 2-5 ranks "
+            "(all role assignments enumerated for 2 ranks), safe mode on/off, intra-node aggregation on/off, collective header I/O (romio_no_indep_rw) on/off, injected delays; oracle: the "
             "per-rank sequences of MPI collectives issued by the library inside one API call are identical on all ranks (PMPI shim), every "
             "rank returns, erring ranks get their own error / good ranks NC_NOERR and their data is stored (read back), safe mode returns "
             "the same code everywhere; distinct = distinct (kind, form, variable, sorted roles, nprocs, safe, aggr) tuples")
